@@ -348,12 +348,18 @@ pub open spec fn tagged(orig: MessagePayload, id: usize, out: MessagePayload) ->
     && out.headers->Some_0.view()[cid_key()]@ == dec(id)
 }
 
+// A bound replier may only be unbound once its transport has failed (a poll_* of its sink answered Err) or its stream has ended:
+// a replier that was accepted and is still reachable is never silently abandoned (a start_send error rejects one request only).
+pub open spec fn replier_may_go<E, E2>(s: Option<(BoxSink<Frame, E>, BoxStream<Result<Frame, E2>>)>) -> bool {
+    s is Some ==> s->Some_0.0.broken() || s->Some_0.1.ended()
+}
+
 //@fn protocol/src/frame.rs :: Frame :: unwrap_message [props=C11]
     requires self is Message,                                                                                           // [C11.unwrap_message_needs_message]
     ensures self == Frame::Message(r),
 //@end
 
-//@fn server/src/topic/reqrep.rs :: Future for Topic :: poll [props=C02 C04 C08 C09 C10 C11 C16] [slots=buffered_rep:C02.reply_not_overwritten buffered_err:C10.rejection_not_overwritten server:C10.bound_replier_not_replaced]
+//@fn server/src/topic/reqrep.rs :: Future for Topic :: poll [props=C02 C04 C08 C09 C10 C11 C16] [slots=buffered_rep:C02.reply_not_overwritten buffered_err:C10.rejection_not_overwritten server:C10.bound_replier_not_replaced] [clears=server:C11.replier_unbound_only_when_broken_or_ended:replier_may_go]
     requires
         old(self).inv(),
     ensures
